@@ -83,7 +83,11 @@ class UnsignedN(struct.Struct):
         return super().unpack(buffer + b'\x00' * (super().size - self.size))
 
     def pack(self, *v):
-        return super().pack(*v)[:self.size]
+        packed = super().pack(*v)
+        if not 0 <= v[0] < (1 << self.width):
+            raise struct.error(
+                f"UNSIGNED{self.width} requires 0 <= number <= {(1 << self.width) - 1}")
+        return packed[:self.size]
 
     @property
     def size(self) -> int:
@@ -120,7 +124,12 @@ class IntegerN(struct.Struct):
         )
 
     def pack(self, *v):
-        return super().pack(*v)[:self.size]
+        packed = super().pack(*v)
+        limit = 1 << (self.width - 1)
+        if not -limit <= v[0] < limit:
+            raise struct.error(
+                f"INTEGER{self.width} requires {-limit} <= number <= {limit - 1}")
+        return packed[:self.size]
 
     @property
     def size(self) -> int:
